@@ -206,6 +206,10 @@ m("sporadic_jitter_floor", "src/arrival/sporadic.rs",
   "divide_with_ceil(delta + self.jitter, self.min_inter_arrival) as usize",
   "((delta + self.jitter) / self.min_inter_arrival) as usize + (self.jitter.is_zero() && (delta % self.min_inter_arrival).is_non_zero()) as usize",
   ["C10"], note="with jitter, floor instead of ceil")
+m("sporadic_extra_job_at_boundary", "src/arrival/sporadic.rs",
+  "divide_with_ceil(delta + self.jitter, self.min_inter_arrival) as usize",
+  "((delta + self.jitter) / self.min_inter_arrival) as usize + 1",
+  ["C18", "C10"], note="one extra job when delta + jitter is an exact multiple of the period: safe, not attained")
 m("curve_lookup_off_by_one", "src/arrival/curve.rs",
   "            if delta <= *distance_of_njobs {\n                return njobs - 1;",
   "            if delta <= *distance_of_njobs + Duration::epsilon() {\n                return njobs - 1;",
